@@ -20,7 +20,13 @@ from ..oracles import cf_fscm as S
 PROP = "C18"
 RULE = ("random ADMGs with 1-5 nodes (quick: mostly <=4) x conjunctions of 1-4 counterfactual events over <=3 "
         "counterfactual worlds plus the factual world (shared and distinct subscripts, x / x' values, self-interventions, "
-        "the same variable in several worlds with equal or different values); the paper examples (Shpitser-Pearl "
+        "the same variable in several worlds with equal or different values); structured shapes (150 + 150 + 150 + 120 + 120 per quick run): a parent "
+        "observed factually and intervened on in a world (shared_parent), two copies of an untouched variable (two_copies), 2-3 worlds that "
+        "agree on do(ancestor) and differ in irrelevant interventions so that copies merge with EACH OTHER in the world-pair loop "
+        "(world_family), a parent intervened in one world and observed in another (mirrored_parent), both copies of a parent observed "
+        "(both_observed); 8% of the random stream are events that USE three counterfactual worlds, 8% 'twin' events (two worlds sharing 2-3 base "
+        "variables), 30% of the random graphs are stored in a shuffled (non-topological) insertion order, edge-less random graphs are mostly "
+        "re-drawn; thorough adds 400 six-node graphs with binary variables and up to 5 conjuncts; the paper examples (Shpitser-Pearl "
         "fig. 9, Tikka fig. 2) and all past witnesses first; a malformed stream (cyclic graph, event variable outside "
         "the graph). Every case is run under every iteration order of the worlds. A case is non-trivial when the event "
         "has >= 2 conjuncts, at least one counterfactual world, the graph has an edge, and the construction merged at "
@@ -84,6 +90,12 @@ def shared_parent_case(rng: random.Random):
         nxt += 1
         nodes.append(z)
         di += [[z, c] for c in kids if rng.random() < 0.7] or [[z, kids[0]]]
+    z2 = None
+    if z is not None and rng.random() < 0.3:      # a third parent of the children (three differing parent pairs at merge time)
+        z2 = nxt
+        nxt += 1
+        nodes.append(z2)
+        di += [[z2, c] for c in kids]
     y = None
     if rng.random() < 0.5:
         y = nxt
@@ -99,6 +111,11 @@ def shared_parent_case(rng: random.Random):
     if z is not None and rng.random() < 0.7:
         world.append((z, rng.choice(["m", "p"])))
     ev = [[K.mkvar(x), sx]]
+    if z2 is not None:
+        s2 = rng.choice(["m", "p"])
+        world.append((z2, s2))
+        if rng.random() < 0.7 and not any(z2 in e for e in bi):    # observed at the value it is set to (or, rarely, at the other one)
+            ev.append([K.mkvar(z2), s2 if rng.random() < 0.8 else ("p" if s2 == "m" else "m")])
     targets = kids if y is None or rng.random() < 0.5 else [y] + [c for c in kids if rng.random() < 0.5]
     for t in targets:
         ev.append([K.mkvar(t, world), rng.choice(["m", "p"])])
@@ -137,16 +154,240 @@ def two_copies_case(rng: random.Random):
     return {"g": {"nodes": nodes, "di": di, "bi": bi}, "event": K.sort_event(ev2), "seed": rng.randrange(1 << 30)}
 
 
+def world_family_case(rng: random.Random):
+    """structured shape: 2-3 counterfactual worlds that agree on an intervention do(A = a) on an ancestor A of V and differ only in
+    interventions on variables that are NOT ancestors of V: the copies V@w_i are the same random variable as each other but (A not being
+    observed at a) NOT the same as the factual V, so they merge with each other in the world-pair loop, not in the factual loop.  The
+    event mentions V in two of the worlds (equal or different values) and something else in the third, so that a value reaches a
+    kept copy only through an earlier relabelling."""
+    k = rng.choice([2, 3, 3])
+    a, v_ = 0, 1
+    nodes, di, bi = [a, v_], [], []
+    nxt = 2
+    mid = None
+    if rng.random() < 0.35:      # A -> M -> V
+        mid = nxt
+        nxt += 1
+        nodes.append(mid)
+        di += [[a, mid], [mid, v_]]
+    else:
+        di.append([a, v_])
+    irr = []
+    for _ in range(k):
+        irr.append(nxt)
+        nodes.append(nxt)
+        r = rng.random()
+        if r < 0.35:
+            di.append([v_, nxt])         # a child of V
+        elif r < 0.5:
+            di.append([a, nxt])          # another child of A
+        nxt += 1
+    y = None
+    if rng.random() < 0.4:
+        y = nxt
+        nxt += 1
+        nodes.append(y)
+        di.append([v_, y])
+    for p in nodes:
+        for q in nodes:
+            if p < q and rng.random() < 0.1:
+                bi.append([p, q])
+    sa = rng.choice(["m", "p"])
+    worlds = []
+    for i in range(k):
+        w = [(a, sa if rng.random() < 0.9 else ("p" if sa == "m" else "m")), (irr[i], rng.choice(["m", "p"]))]
+        if rng.random() < 0.15:
+            w = w[:1] if not any(x == tuple(w[:1]) for x in worlds) else w
+        worlds.append(tuple(sorted(w)))
+    worlds = list(dict.fromkeys(worlds))
+    val = rng.choice(["m", "p"])
+    other = "p" if val == "m" else "m"
+    ev = []
+    order = list(range(len(worlds)))
+    rng.shuffle(order)
+    carriers = order[:2]
+    for j, wi in enumerate(order):
+        w = worlds[wi]
+        if wi in carriers:
+            ev.append([K.mkvar(v_, w), val if (j == 0 or rng.random() < 0.5) else other])
+            if y is not None and rng.random() < 0.5:
+                ev.append([K.mkvar(y, w), rng.choice(["m", "p"])])
+        else:
+            t = rng.choice([x for x in ([y] if y is not None else []) + irr + ([mid] if mid is not None else []) if x not in {n for n, _ in w}] or [v_])
+            ev.append([K.mkvar(t, w), rng.choice(["m", "p"])])
+    if rng.random() < 0.2:
+        ev.append([K.mkvar(a), sa if rng.random() < 0.7 else ("p" if sa == "m" else "m")])
+    if rng.random() < 0.15:
+        ev.append([K.mkvar(v_), rng.choice(["m", "p"])])
+    seen, ev2 = set(), []
+    for var, x in ev:
+        if C.enc(var) not in seen:
+            seen.add(C.enc(var))
+            ev2.append([var, x])
+    rng.shuffle(nodes)
+    return {"g": {"nodes": nodes, "di": di, "bi": bi}, "event": K.sort_event(ev2), "seed": rng.randrange(1 << 30)}
+
+
+def mirrored_parent_case(rng: random.Random):
+    """structured shape (the mirrored case of Lemma 24's parent test, second copy observed / first copy intervened): Y has the parents X
+    and Z; world w1 = do(X = s, Z = t), world w2 = do(Z = t) [+ an irrelevant intervention]; the FACTUAL X is observed (no bidirected
+    edge at X), so X@w2 merges into it and Y@w2 keeps the observed parent X while Y@w1 has the intervened parent X@w1: Y@w1 and Y@w2
+    are the same variable iff the observed value of X is s (and Z is forced to the same value in both worlds)."""
+    x, z, y = 0, 1, 2
+    nodes, di, bi = [x, z, y], [[x, y], [z, y]], []
+    nxt = 3
+    extra = {}
+    for name, p in (("a", 0.3), ("c", 0.4), ("q", 0.4)):
+        if rng.random() < p:
+            extra[name] = nxt
+            nodes.append(nxt)
+            nxt += 1
+    if "a" in extra:
+        di.append([extra["a"], x])
+    if "c" in extra:
+        di.append([y, extra["c"]])
+    if "q" in extra and rng.random() < 0.5:
+        di.append([y, extra["q"]])
+    for p in nodes:
+        for q in nodes:
+            if p < q and x not in (p, q) and rng.random() < 0.12:
+                bi.append([p, q])
+    s = rng.choice(["m", "p"])
+    o = "p" if s == "m" else "m"
+    sz = rng.choice(["m", "p"])
+    w1 = [(x, s), (z, sz)]
+    w2 = [(z, sz if rng.random() < 0.85 else ("p" if sz == "m" else "m"))]
+    if "q" in extra and rng.random() < 0.6:
+        w2.append((extra["q"], rng.choice(["m", "p"])))
+    ev = [[K.mkvar(x), s if rng.random() < 0.6 else o]]
+    t = extra["c"] if "c" in extra and rng.random() < 0.4 else y
+    v1 = rng.choice(["m", "p"])
+    ev.append([K.mkvar(t, w1), v1])
+    ev.append([K.mkvar(t, w2), v1 if rng.random() < 0.5 else ("p" if v1 == "m" else "m")])
+    if "a" in extra and rng.random() < 0.3:
+        ev.append([K.mkvar(extra["a"]), rng.choice(["m", "p"])])
+    rng.shuffle(nodes)
+    return {"g": {"nodes": nodes, "di": di, "bi": bi}, "event": K.sort_event(ev), "seed": rng.randrange(1 << 30)}
+
+
+def both_observed_case(rng: random.Random):
+    """structured shape: a parent X of Y whose two copies (factual and X@w, or X@w1 and X@w2; w = do(Z) with Z a parent of X, so the copies
+    do NOT merge) are BOTH in the event, with equal or different values; Y's copies in the same two worlds are in the event as well: they
+    are the same variable iff the two observed values of X are equal (and Y's other parents agree)."""
+    z, x, y = 0, 1, 2
+    nodes, di, bi = [z, x, y], [[z, x], [x, y]], []
+    nxt = 3
+    p2 = c = None
+    if rng.random() < 0.35:       # a second parent of Y, untouched by the worlds
+        p2 = nxt
+        nxt += 1
+        nodes.append(p2)
+        di.append([p2, y])
+    if rng.random() < 0.35:
+        c = nxt
+        nxt += 1
+        nodes.append(c)
+        di.append([y, c])
+    for p in nodes:
+        for q in nodes:
+            if p < q and rng.random() < 0.1 and (p, q) != (z, x):
+                bi.append([p, q])
+    s = rng.choice(["m", "p"])
+    o = "p" if s == "m" else "m"
+    if rng.random() < 0.7:
+        wa, wb = (), ((z, s),)
+    else:
+        wa, wb = ((z, s),), ((z, o),)
+    vx = rng.choice(["m", "p"])
+    ev = [[K.mkvar(x, wa), vx], [K.mkvar(x, wb), vx if rng.random() < 0.55 else ("p" if vx == "m" else "m")]]
+    t = c if c is not None and rng.random() < 0.4 else y
+    vy = rng.choice(["m", "p"])
+    if rng.random() < 0.8:
+        ev.append([K.mkvar(t, wa), vy])
+    ev.append([K.mkvar(t, wb), vy if rng.random() < 0.5 else ("p" if vy == "m" else "m")])
+    if p2 is not None and rng.random() < 0.3:
+        ev.append([K.mkvar(p2), rng.choice(["m", "p"])])
+    rng.shuffle(nodes)
+    return {"g": {"nodes": nodes, "di": di, "bi": bi}, "event": K.sort_event(ev), "seed": rng.randrange(1 << 30)}
+
+
+def three_world_event(rng: random.Random, g):
+    """an event that USES three counterfactual worlds: one conjunct per world first (then up to two more, possibly factual)"""
+    nodes = G.all_nodes(g)
+    worlds = []
+    for _ in range(12):
+        w = K.rand_world(rng, nodes)
+        if worlds and rng.random() < 0.4:     # same variables as an earlier world, other values / one more variable
+            w0 = rng.choice(worlds)
+            w = tuple(sorted({n: ("p" if rng.random() < 0.5 else "m") for n, _ in w0}.items()))
+            if rng.random() < 0.4:
+                extra = [n for n in nodes if n not in {a for a, _ in w}]
+                if extra:
+                    w = tuple(sorted(w + ((rng.choice(extra), rng.choice(["m", "p"])),)))
+        if w and w not in worlds:
+            worlds.append(w)
+        if len(worlds) == 3:
+            break
+    ev = {}
+    for w in worlds + [rng.choice(worlds + [()]) for _ in range(rng.choice([0, 1, 1, 2]))]:
+        cand = [v_ for v_ in nodes if v_ not in {n for n, _ in w}] or nodes
+        var = K.mkvar(rng.choice(cand), w)
+        ev.setdefault(C.enc(var), [var, "p" if rng.random() < 0.35 else "m"])
+    return K.sort_event(list(ev.values()))
+
+
+def twin_event(rng: random.Random, g):
+    """'twin' events: two worlds (a counterfactual one and the factual world / a second counterfactual world) that share two or
+    three base variables: V@w and V@w' for every V of a set B, equal or different values"""
+    nodes = G.all_nodes(g)
+    w = K.rand_world(rng, nodes)
+    r = rng.random()
+    if r < 0.5:
+        w2 = ()
+    elif r < 0.75:
+        w2 = tuple((n, "p" if s_ == "m" else "m") if rng.random() < 0.7 else (n, s_) for n, s_ in w)
+    else:
+        w2 = K.rand_world(rng, nodes)
+    if w2 == w:
+        w2 = ()
+    touched = {n for n, _ in w} | {n for n, _ in w2}
+    pool = [v_ for v_ in nodes if v_ not in touched] or nodes
+    base = rng.sample(pool, min(len(pool), rng.choice([2, 2, 3])))
+    ev = {}
+    for b in base:
+        val = "p" if rng.random() < 0.35 else "m"
+        for ww in (w, w2):
+            var = K.mkvar(b, ww)
+            ev.setdefault(C.enc(var), [var, val if rng.random() < 0.6 else ("p" if val == "m" else "m")])
+    return K.sort_event(list(ev.values()))
+
+
 def cases(rng: random.Random, tier: str):
     out = [dict(c, seed=1000 + i) for i, c in enumerate(CORPUS)]
     out += K.load_corpus("C18")
     out += [shared_parent_case(rng) for _ in range(150 if tier == "quick" else 600)]
     out += [two_copies_case(rng) for _ in range(150 if tier == "quick" else 600)]
+    # shapes that the mutation campaign C (tools/mutants_C.md) showed the random stream does not produce often enough
+    out += [world_family_case(rng) for _ in range(150 if tier == "quick" else 600)]
+    out += [mirrored_parent_case(rng) for _ in range(120 if tier == "quick" else 500)]
+    out += [both_observed_case(rng) for _ in range(120 if tier == "quick" else 500)]
     n = 2500 if tier == "quick" else 9000
     for _ in range(n):
         big = rng.random() < (0.15 if tier == "quick" else 0.3)
         g = K.rand_admg(rng, 1, 5 if big else 4)
-        ev = K.rand_event(rng, g, max_worlds=3, max_items=4)
+        for _k in range(3):      # about a third of the random graphs had no edge at all: most of those are drawn again
+            if g["di"] or g["bi"] or rng.random() < 0.25:
+                break
+            g = K.rand_admg(rng, 2, 5 if big else 4)
+        r3 = rng.random()
+        if r3 < 0.08 and len(G.all_nodes(g)) >= 2:
+            ev = three_world_event(rng, g)
+        elif r3 < 0.16 and len(G.all_nodes(g)) >= 2:
+            ev = twin_event(rng, g)
+        else:
+            ev = K.rand_event(rng, g, max_worlds=3, max_items=4)
+        if rng.random() < 0.3:      # graphs stored in a NON-topological insertion order (seeded/C07c walks graph.nodes())
+            g = dict(g, nodes=rng.sample(G.all_nodes(g), len(G.all_nodes(g))))
         c = {"g": g, "event": ev, "seed": rng.randrange(1 << 30)}
         r = rng.random()
         if r < 0.02:
@@ -160,6 +401,12 @@ def cases(rng: random.Random, tier: str):
         out.append(c)
     if tier == "thorough":
         out += K.exhaustive_event_cases(2, 2)
+        # a slice beyond the caps of the quick tier: six nodes, up to five conjuncts, binary variables (the noise space stays small)
+        for _ in range(400):
+            g = K.rand_admg(rng, 6, 6)
+            ev = rng.choice([three_world_event, twin_event, lambda r_, g_: K.rand_event(r_, g_, max_worlds=3, max_items=5)])(rng, g)
+            out.append({"g": dict(g, nodes=rng.sample(G.all_nodes(g), len(G.all_nodes(g)))), "event": ev, "seed": rng.randrange(1 << 30),
+                        "binary": True})
     # the Python oracle against the Lean SPECIFICATION of "probability of a counterfactual event" (Y0/Spec/Fscm.lean)
     for _ in range(40 if tier == "quick" else 400):
         g = K.rand_admg(rng, 1, 4)
@@ -250,17 +497,18 @@ def _semantic(case, res, exc=None):
     ev = case["event"]
     if res == ["err"]:
         return f"construction raised {exc}: neither (graph, event) nor 'inconsistent' for an event in the property's domain"
+    mc = 2 if case.get("binary") else 3
     if res[1] == "inconsistent":
-        w = S.check_zero(g, ev, case.get("seed", 0))
+        w = S.check_zero(g, ev, case.get("seed", 0), max_card=mc)
         return None if w is None else f"'inconsistent' reported for an event of positive probability: {w}"
     s = _structure(res)
     if s:
         return s
-    s = S.check_parents_represented(g, ev, res[1][1], res[1][2], case.get("seed", 0))
+    s = S.check_parents_represented(g, ev, res[1][1], res[1][2], case.get("seed", 0), max_card=mc)
     if s:
         return s
     new_ev = [[[x if not isinstance(x, list) else x for x in var], val] for var, val in res[2]]
-    w = S.check_same_probability(g, ev, new_ev, case.get("seed", 0))
+    w = S.check_same_probability(g, ev, new_ev, case.get("seed", 0), max_card=mc)
     return None if w is None else f"relabelled event {new_ev} has another probability than the event: {w}"
 
 
